@@ -170,7 +170,7 @@ Section Run.
     match r_state st with
     | MRunning =>
         if forallb (fun p => null (snd p)) (r_queue st) then
-          let inv := 0 <? r_changed st in
+          let inv := sw_inval fixed || (0 <? r_changed st) in   (* Switch.always_inval_fixed: the repaired code always invalidates *)
           mkR (r_docs st) (r_idx st) (r_clock st) MCompleted (r_cols st) (r_changed st) (r_last st) (r_rid st)
               (r_regen st) (r_hasall st) [] (r_last st) (r_changed st)
               (if inv then invalidate_all (r_ps st) else r_ps st)
